@@ -135,7 +135,7 @@ def run_idp(case):
 
 # ------------------------------------------------------------------ SP half
 FAULTS = ['none', 'content-edit', 'wrong-key', 'unsigned', 'cond-expired', 'scd-expired', 'session-expired', 'not-yet-valid', 'foreign-audience', 'two-restrictions',
-          'scd-irt-other', 'scd-irt-unknown', 'irt-unknown', 'foreign-recipient', 'xsw', 'order-violation', 'no-subject-confirmation', 'status-responder']
+          'scd-irt-other', 'scd-irt-unknown', 'scd-irt-absent', 'irt-unknown', 'foreign-recipient', 'xsw', 'order-violation', 'no-subject-confirmation', 'status-responder']
 
 
 def sp_strategy():
@@ -180,6 +180,8 @@ def run_sp(case):
         a['subject']['confirmations'][0]['data']['in_response_to'] = 'id-req-2'
     elif f == 'scd-irt-unknown':
         a['subject']['confirmations'][0]['data']['in_response_to'] = 'id-req-nobody'
+    elif f == 'scd-irt-absent':
+        a['subject']['confirmations'][0]['data']['in_response_to'] = None
     elif f == 'irt-unknown':
         r['in_response_to'] = 'id-req-nobody'
         a['subject']['confirmations'][0]['data']['in_response_to'] = 'id-req-nobody'
